@@ -299,7 +299,22 @@ pub fn predicate_matches_up_to_scale(stored: &SNode, mat: &[Vec<Q>], bias: &[Q],
         ex.push(bias[i].clone());
         let mut st: Vec<f64> = stored.mat[i].clone();
         st.push(stored.bias[i]);
-        let pivot = ex.iter().position(|q| !q.is_zero());
+        if !exact_regime && st.iter().zip(ex.iter()).all(|(a, e)| (a - e.to_f64()).abs() <= 1e-12 * scale) {
+            continue; // unscaled, equal up to rounding
+        }
+        // float regime: infer the factor from the largest entry (an entry that suffered cancellation
+        // would carry a large relative rounding error into the factor)
+        let pivot = if exact_regime {
+            ex.iter().position(|q| !q.is_zero())
+        } else {
+            let mut best: Option<usize> = None;
+            for (k, q) in ex.iter().enumerate() {
+                if !q.is_zero() && best.map_or(true, |b| q.to_f64().abs() > ex[b].to_f64().abs()) {
+                    best = Some(k);
+                }
+            }
+            best
+        };
         let lambda = match pivot {
             None => {
                 if st.iter().all(|v| *v == 0.0) {
@@ -314,7 +329,7 @@ pub fn predicate_matches_up_to_scale(stored: &SNode, mat: &[Vec<Q>], bias: &[Q],
         }
         for k in 0..ex.len() {
             let want = ex[k].mul(&lambda);
-            let ok = if exact_regime { Q::from_f64(st[k]) == want } else { (st[k] - want.to_f64()).abs() <= 1e-12 * scale * lambda.to_f64().max(1.0) };
+            let ok = if exact_regime { Q::from_f64(st[k]) == want } else { (st[k] - want.to_f64()).abs() <= 2e-12 * scale * lambda.to_f64().max(1.0) };
             if !ok {
                 return Err(format!("row {} entry {}: stored {:e}, exact {:e} (times the row factor {:e} = {:e})", i, k, st[k], ex[k].to_f64(), lambda.to_f64(), want.to_f64()));
             }
